@@ -25,8 +25,10 @@ Fixpoint distinct (l : list Z) : list Z :=
 Definition test_empty (t : view) : bool := v_empty t.
 Definition test_obssize (t : view) : bool := negb (Nat.eqb (v_rows t) (List.length (v_oids t))).
 Definition test_sampsize (t : view) : bool := negb (Nat.eqb (v_cols t) (List.length (v_sids t))).
-Definition test_obsdup (t : view) : bool := negb (Nat.eqb (v_rows t) (List.length (distinct (v_oids t)))).
-Definition test_sampdup (t : view) : bool := negb (Nat.eqb (v_cols t) (List.length (distinct (v_sids t)))).
+Definition test_obsdup (t : view) : bool :=
+  negb (Nat.eqb (List.length (v_oids t)) (List.length (distinct (v_oids t)))).
+Definition test_sampdup (t : view) : bool :=
+  negb (Nat.eqb (List.length (v_sids t)) (List.length (distinct (v_sids t)))).
 Definition test_obsmdsize (t : view) : bool :=
   match v_omd t with Some n => negb (Nat.eqb (v_rows t) n) | None => false end.
 Definition test_sampmdsize (t : view) : bool :=
@@ -46,25 +48,29 @@ Record profile := { st : dict string; calls : dict Z }.
 Definition default_profile : profile :=
   {| st := default_state; calls := map (fun kv => (fst kv, 0%Z)) default_state |}.
 
-(* ErrorProfile.state setter, err.py:213-227.
-   for errtype, new_state in to_update: raise ... ; self._state[errtype] = new_state *)
-Definition state_set_body (acc : dict string * res unit) (kv : string * string)
-  : dict string * res unit :=
+(* ErrorProfile.state setter, err.py:213-230.  Two loops over to_update: the first validates
+   every (kind, reaction) and raises before anything is written, the second writes. *)
+Definition validate_body (s : dict string) (acc : res unit) (kv : string * string) : res unit :=
   match acc with
-  | (s, Raise e) => (s, Raise e)
-  | (s, Ok _) =>
+  | Raise e => Raise e
+  | Ok _ =>
       let '(errtype, new_state) := kv in
-      if negb (smem new_state valid_states) then (s, Raise (KeyError "Unknown state type"))
-      else if negb (dmem s errtype) then (s, Raise (KeyError "Unknown error type"))
-      else (dset s errtype new_state, Ok tt)
+      if negb (smem new_state valid_states) then Raise (KeyError "Unknown state type")
+      else if negb (dmem s errtype) then Raise (KeyError "Unknown error type")
+      else Ok tt
   end.
+Definition apply_body (s : dict string) (kv : string * string) : dict string :=
+  dset s (fst kv) (snd kv).
 Definition state_set (self_state new_state : dict string) : dict string * res unit :=
   let to_update :=
     if dmem new_state "all"
     then map (fun err => (err, match dget new_state "all" with Some v => v | None => "" end))
              (dkeys self_state)
     else new_state in
-  fold_left state_set_body to_update (self_state, Ok tt).
+  match fold_left (validate_body self_state) to_update (Ok tt) with
+  | Raise e => (self_state, Raise e)
+  | Ok _ => (fold_left apply_body to_update self_state, Ok tt)
+  end.
 
 (* seterr, err.py:344-392 *)
 Definition seterr (s kwargs : dict string) : dict string * res (dict string) :=
@@ -75,11 +81,11 @@ Definition seterr (s kwargs : dict string) : dict string * res (dict string) :=
     else state_set s kwargs in
   match r with Ok _ => (s', Ok old_state) | Raise e => (s', Raise e) end.
 
-(* errstate, err.py:480-503: generator split at its single yield.  There is no
-   try/finally around the yield in the source, hence leaving by exception does nothing. *)
+(* errstate, err.py:483-510: generator split at its single yield, which sits inside
+   try/finally: the old state is restored on both exits. *)
 Definition errstate_enter (s kwargs : dict string) := seterr s kwargs.
 Definition errstate_exit_normal (s old : dict string) : dict string := fst (seterr s old).
-Definition errstate_exit_exception (s old : dict string) : dict string := s.
+Definition errstate_exit_exception (s old : dict string) : dict string := fst (seterr s old).
 
 (* seterrcall / ErrorProfile.setcall, err.py:262-291,395-427 *)
 Definition seterrcall (c : dict Z) (errtype : string) (func : Z) : dict Z * res Z :=
@@ -92,24 +98,34 @@ Definition geterrcall (c : dict Z) (errtype : string) : res Z :=
 Inductive event := EvNone | EvWarn (k : string) | EvPrint (k : string)
                  | EvCall (k : string) (cb : Z) | EvRaise (k : string).
 
-(* ErrorProfile._handle_error, err.py:257-261 *)
+(* ErrorProfile._handle_error, err.py: profile[state](item) *)
+Definition react (errtype r : string) (cb : Z) : event :=
+  if String.eqb r "raise" then EvRaise errtype
+  else if String.eqb r "warn" then EvWarn errtype
+  else if String.eqb r "print" then EvPrint errtype
+  else if String.eqb r "call" then EvCall errtype cb
+  else EvNone.
 Definition handle_error (p : profile) (errtype : string) : event :=
   match dget (st p) errtype with
-  | Some "raise" => EvRaise errtype
-  | Some "warn" => EvWarn errtype
-  | Some "print" => EvPrint errtype
-  | Some "call" => EvCall errtype (match dget (calls p) errtype with Some c => c | None => 0%Z end)
-  | _ => EvNone
+  | Some r => react errtype r (match dget (calls p) errtype with Some c => c | None => 0%Z end)
+  | None => EvNone
   end.
+Definition is_ignored (p : profile) (errtype : string) : bool :=
+  match dget (st p) errtype with Some r => String.eqb r "ignore" | None => false end.
 
-(* ErrorProfile.test, err.py:233-255:  for errtype in sorted(args): if test(item): return handle *)
+(* ErrorProfile.test, err.py:235-262:
+   for errtype in sorted(args): if test(item): [continue if the kind is ignored] return handle *)
 Fixpoint test_loop (p : profile) (item : view) (args : list string) : res event :=
   match args with
   | [] => Ok EvNone
   | errtype :: rest =>
       match dget registry errtype with
       | None => Raise TypeError          (* self._test.get(errtype, lambda: None)(item) *)
-      | Some test => if test item then Ok (handle_error p errtype) else test_loop p item rest
+      | Some test =>
+          if test item then
+            if is_ignored p errtype then test_loop p item rest
+            else Ok (handle_error p errtype)
+          else test_loop p item rest
       end
   end.
 Definition errcheck (p : profile) (item : view) (args : list string) : res event :=
